@@ -202,6 +202,11 @@ func (r *v2run) getOp(obj int64, w int64, cost, costDone uint32, batchable bool)
 }
 
 func (r *v2run) doStep(st Step) {
+	defer func() {
+		if e := recover(); e != nil {
+			r.log.Logf("O", "apipanic %s", st.Kind)
+		}
+	}()
 	switch st.Kind {
 	case "start":
 		r.log.Logf("D", "act start")
